@@ -84,6 +84,11 @@ pub struct GenCfg {
     pub rich_names: bool,
     /// probability (0..=100) of a volume built by imggen::mkfs (geometry the library's formatter cannot produce)
     pub gen_geom_pct: u32,
+    /// probability (0..=100) of a volume whose cluster count sits on a FAT-width limit (vol::BOUNDARY_CLUSTERS) with
+    /// free clusters only at the very start and the very end, so that chains reach the last clusters
+    pub boundary_pct: u32,
+    /// probability (0..=100) of a device that makes short transfers (legal for the storage traits)
+    pub short_io_pct: u32,
 }
 
 impl GenCfg {
@@ -115,6 +120,8 @@ impl GenCfg {
             invalid_names: true,
             rich_names: true,
             gen_geom_pct: 20,
+            boundary_pct: 5,
+            short_io_pct: 12,
         }
     }
     pub fn fileio() -> GenCfg {
@@ -465,6 +472,15 @@ pub fn decode_vol(gc: &GenCfg, r: &RawVol) -> VolCfg {
     let p = pick(&gc.presets, r.preset);
     let use_gen = (((r.misc.rotate_left(13) as u32) * 100) >> 16) < gc.gen_geom_pct;
     let mut v = if use_gen { VolCfg::from_gen_preset((r.preset as usize * crate::vol::GEN_PRESETS.len()) >> 16) } else { VolCfg::from_preset(p) };
+    if (((r.misc.rotate_left(3) as u32) * 100) >> 16) < gc.boundary_pct {
+        v = VolCfg::boundary((r.preset as usize * crate::vol::BOUNDARY_CLUSTERS.len()) >> 16);
+        v.free_lo = Some(pick(&[0u16, 1, 2, 5], r.lo));
+        v.free_hi = pick(&[3u16, 6, 12, 20], r.hi);
+        v.status0 = pick(&gc.status0, r.misc);
+        v.access_date = pick(&gc.access_date, r.misc.rotate_left(4));
+        v.short_io = short_io_of(gc, r);
+        return v;
+    }
     let tiny = ((r.tiny as u32 * 100) >> 16) < gc.tiny_free_pct;
     if tiny {
         let los = [3u16, 6, 10, 20, 40];
@@ -476,7 +492,17 @@ pub fn decode_vol(gc: &GenCfg, r: &RawVol) -> VolCfg {
     if v.fat == 32 && (((r.misc.rotate_left(9) as u32) * 100) >> 16) < gc.fsinfo_unknown_pct {
         v.fsinfo_unknown = true;
     }
+    v.short_io = short_io_of(gc, r);
     v
+}
+
+fn short_io_of(gc: &GenCfg, r: &RawVol) -> u8 {
+    let sel = r.hi.rotate_left(5) ^ r.lo.rotate_left(11);
+    if ((sel as u32 * 100) >> 16) < gc.short_io_pct {
+        1 + (sel % 250) as u8
+    } else {
+        0
+    }
 }
 
 pub fn raw_vol_strategy() -> impl Strategy<Value = RawVol> {
@@ -535,6 +561,7 @@ pub fn pressure_case_strategy(gc: GenCfg) -> impl Strategy<Value = Case> {
         };
         vol.status0 = pick(&gc.status0, rv.misc);
         vol.access_date = pick(&gc.access_date, rv.misc.rotate_left(4));
+        vol.short_io = short_io_of(&gc, &rv);
         // the directory under pressure
         let base: &str = if fixed_root || (vol.fat == 32 && mode & 0x100 != 0) { "" } else if mode & 0x200 != 0 { "d/e" } else { "d" };
         let other: &str = if base.is_empty() { "o" } else { "" };
